@@ -735,7 +735,8 @@ class FGen:
             body = self.num_body(scope, depth - 1, n)
             return ["existsint" if chance(rnd, 0.6) else "forallint", n, body]
         if c in ("and", "or"):
-            return [c, self.formula(scope, depth - 1, numvars), self.formula(scope, depth - 1, numvars)]
+            n = 2 + (1 if chance(rnd, 0.35) else 0) + (1 if chance(rnd, 0.2) else 0)
+            return [c] + [self.formula(scope, depth - 1, numvars) for _ in range(n)]
         if c in ("implies", "iff", "xor"):
             return [c, self.formula(scope, depth - 1, numvars), self.formula(scope, depth - 1, numvars)]
         if c == "not":
